@@ -127,6 +127,10 @@ def check_forwarding(ctx, rule, caller, call, callee, expect, what=""):
                      construct="%s → %s: %s=%s" % (caller.qual, callee.qual, prm, norm(got) if got is not None else "missing"))
     for prm in b:
         if prm not in expect and not prm.startswith(("*", "#")):
+            d_ = getattr(callee, "defaults", {}).get(prm) if hasattr(callee, "defaults") else None
+            if d_ is not None and isinstance(b[prm], ast.Constant) and isinstance(d_, ast.Constant) and b[prm].value == d_.value \
+                    and type(b[prm].value) is type(d_.value):
+                continue  # the callee's own default written out: the same call
             ok = False
             ctx.viol(rule, caller, call, "unexpected argument `%s=%s` for %s" % (prm, norm(b[prm]), callee.qual),
                      construct="%s → %s: extra %s" % (caller.qual, callee.qual, prm))
@@ -555,6 +559,7 @@ IDENTITY_SCOPE = {
              "anytree/importer/dictimporter.py"), None),
     "C14": (("anytree/search.py", "anytree/cachedsearch.py"), None),
     "C15": (("anytree/walker.py",), None),
+    "C19": (_MIX + ("anytree/node/symlinknodemixin.py", "anytree/node/symlinknode.py", "anytree/node/node.py", "anytree/node/anynode.py"), "pickle"),
     "C20": (("anytree/node/symlinknodemixin.py", "anytree/node/symlinknode.py"), None),
 }
 
@@ -565,6 +570,44 @@ ID_SENTENCE = (" ID the identity-only lint of C17 (no ==, in/index/remove, truth
 
 def explanation_of(mod, prop):
     return mod.EXPLANATION + (ID_SENTENCE if prop in IDENTITY_SCOPE else "")
+
+
+def _structural_members(p):
+    """(class, name, kind) of the functions of the two mixins that the structural entry points (parent setter, children
+    setter/deleter) can reach through calls / property reads on private members of the class"""
+    from .. import tables as T
+    from ..model import Func, Prop, mangle
+    out = set()
+    for m in T.MIXINS:
+        cls = p.classes.get(m)
+        if cls is None:
+            continue
+        work = []
+        for name in ("parent", "children"):
+            mem = cls.members.get(name)
+            if isinstance(mem, Prop):
+                for k in ("setter", "deleter"):
+                    f = getattr(mem, k)
+                    if f is not None:
+                        work.append(f)
+        seen = set()
+        while work:
+            f = work.pop()
+            if f in seen:
+                continue
+            seen.add(f)
+            out.add((m, f.srcname, f.kind))
+            for n in walk_own(f.node):
+                if isinstance(n, ast.Attribute) and n.attr.startswith("__") and not n.attr.endswith("__"):
+                    mem = cls.members.get(mangle(m, n.attr))
+                    if isinstance(mem, Func):
+                        work.append(mem)
+                    elif isinstance(mem, Prop):
+                        for k in ("getter", "setter", "deleter"):
+                            g = getattr(mem, k)
+                            if g is not None:
+                                work.append(g)
+    return out
 
 
 def rule_identity_scope(ctx):
@@ -579,6 +622,7 @@ def rule_identity_scope(ctx):
     from .. import tables as T
     files, which = scope
     typer = typer_for(ctx)
+    struct_names = _structural_members(ctx.p) if which == "structural" else None
     hits, stats = lint_program(ctx.p, typer, files=set(files))
     ctx.instances["ID"] = stats["typed_node"] + stats["typed_node_seq"]
     for h in hits:
@@ -586,9 +630,15 @@ def rule_identity_scope(ctx):
         top = f
         while getattr(top, "outer", None) is not None:
             top = top.outer
-        if which is not None and top.cls is not None and top.cls.name in T.MIXINS:
+        if which == "pickle":
+            if top.srcname not in ("__reduce_ex__", "__reduce__", "__getstate__", "__setstate__", "__deepcopy__", "__copy__"):
+                continue
+        elif which is not None and top.cls is not None and top.cls.name in T.MIXINS:
             nav = top.srcname in T.READONLY_MEMBERS and top.kind not in ("setter", "deleter")
-            if (which == "navigation") != nav:
+            structural = (top.cls.name, top.srcname, top.kind) in struct_names if struct_names is not None else False
+            if which == "navigation" and not nav:
+                continue
+            if which == "structural" and not structural:
                 continue
         elif which == "navigation" and top.module.relpath in _MIX:
             continue
